@@ -30,9 +30,11 @@ def program_of(evs):
     if not evs or evs[0].get("op") != "new":
         return None
     h = evs[0]
-    ops = [{k: e[k] for k in ("op", "p") if k in e} for e in evs[1:] if not e.get("audit") and e.get("op") != "hang"]
+    ops = [{k: e[k] for k in ("op", "p", "ro") if k in e} for e in evs[1:] if not e.get("audit") and e.get("op") != "hang"]
+    # objects created by fill / churn are replayed as explicit writes of the same bytes (plain class: a function of name and length)
+    extra = [[e["p"], "plain", e["fill"]] for e in evs[1:] if e.get("op") == "write" and "fill" in e]
     return {"comp": h["comp"], "mode": h.get("mode", "none"), "compress": h.get("compress", False),
-            "payloads": h["payloads"], "ops": ops}
+            "payloads": h["payloads"] + extra, "ops": ops}
 
 
 def mc_cfg(ctx, name, comp, family, depth, mode, compress, devs, emit=True):
@@ -170,6 +172,31 @@ def replay(ctx, kd):
 MIB = 1 << 20
 
 
+def log_programs(quick):
+    """Scripted: more objects in ONE index bucket than its update log holds (60 pages x 21 entries = 1260), so that
+    add_entry has to merge the log into the sorted section inside a container; then reopen and read every object."""
+    pay = [["a", "plain", 100], ["x", "plain", 40]]
+    w, ro = {"op": "write", "p": "a"}, {"op": "reopen"}
+    out = []
+    for comp in ("dyn", "inst"):
+        out.append({"comp": comp, "mode": "none", "compress": False, "payloads": pay,
+                    "ops": [{"op": "fill", "n": 1270, "bucket": 3}, ro, w, ro]})
+        if quick:
+            continue
+        out.append({"comp": comp, "mode": "none", "compress": True, "payloads": pay,
+                    "ops": [{"op": "fill", "n": 700, "bucket": 9}, ro, {"op": "fill", "n": 700, "bucket": 9}, w, ro]})
+        out.append({"comp": comp, "mode": "none", "compress": False, "payloads": pay,
+                    "ops": [{"op": "fill", "n": 2600, "bucket": 0}, w]})
+        for b in range(16):   # one page boundary in every bucket of one store
+            out[-1]["ops"].append({"op": "fill", "n": 23, "bucket": b})
+        out[-1]["ops"].append(ro)
+    if not quick:
+        out.append({"comp": "dyn", "mode": "none", "compress": False, "payloads": pay,
+                    "ops": [{"op": "churn", "n": 640, "bucket": 7}, w, {"op": "fill", "n": 30, "bucket": 7}, ro,
+                            {"op": "flush"}, {"op": "fill", "n": 30, "bucket": 7}, ro]})
+    return out
+
+
 def big_programs():
     """Crosses the real 64 MiB remap threshold from both sides (thorough tier)."""
     pay = [["a", "plain", 70 * MIB], ["b", "plain", 1024], ["c", "comp", 65 * MIB], ["d", "plain", 60 * MIB], ["x", "plain", 10]]
@@ -193,14 +220,16 @@ def run(ctx):
         plan = [("dyn", "sizes", 4, "none", False), ("dyn", "sizes3", 5, "none", False), ("inst", "sizes", 5, "none", False),
                 ("arch", "sizes", 4, "none", False),
                 ("arch", "sizes3", 5, "none", False), ("inst", "classes", 4, "none", False), ("dyn", "classes3", 4, "none", False), ("arch", "classes3", 4, "none", True),
-                ("arch", "sizes3", 4, "zlib", True), ("arch", "sizes3", 4, "lz4", True), ("inst", "sizes3", 4, "none", True)]
+                ("arch", "sizes3", 4, "zlib", True), ("arch", "sizes3", 4, "lz4", True), ("inst", "sizes3", 4, "none", True),
+                ("dyn", "fill", 3, "none", False), ("inst", "fill", 4, "none", False)]
         nrand, rlen = 150, 100
     else:
         plan = [("dyn", "sizes", 5, "none", False), ("dyn", "sizes3", 6, "none", False), ("inst", "sizes", 6, "none", False),
                 ("arch", "sizes", 5, "none", False), ("arch", "sizes3", 6, "none", False), ("arch", "sizes3", 6, "zlib", True),
                 ("arch", "sizes3", 5, "lz4", True), ("inst", "sizes3", 6, "none", True),
                 ("inst", "classes", 5, "none", False), ("inst", "classes", 4, "none", True), ("dyn", "classes", 4, "none", False),
-                ("dyn", "classes3", 5, "none", False), ("arch", "classes3", 5, "none", True), ("arch", "classes3", 5, "zlib", True)]
+                ("dyn", "classes3", 5, "none", False), ("arch", "classes3", 5, "none", True), ("arch", "classes3", 5, "zlib", True),
+                ("dyn", "fill", 4, "none", False), ("inst", "fill", 5, "none", True)]
         nrand, rlen = 1200, 150
     model_refutations(ctx)
     totals = {"exact_reads": 0, "ok_writes": 0, "events": 0}
@@ -239,6 +268,18 @@ def run(ctx):
     judge_trace(ctx, trace, f"random seed={ctx.seed}", kd, totals)
     total_programs += nrand
     distinct += dn
+    lp = ctx.path("prog_log.ndjson")
+    logs = log_programs(ctx.quick)
+    open(lp, "w").write("\n".join(json.dumps(p) for p in logs) + "\n")
+    trace = ctx.path("trace_log.ndjson")
+    d = lib.run_driver("drv_storage", ["--programs", lp, "--out", trace, "--timeout", 300])
+    ctx.stage("run", source="index update log overflow", programs=d.get("programs"), events=d.get("events"), hangs=d.get("hangs"), wall_s=d["wall_s"])
+    if d.get("programs") != len(logs):
+        raise lib.ToolError(f"driver executed {d.get('programs')} of {len(logs)} log programs")
+    count_ops(ctx, d)
+    judge_trace(ctx, trace, "index update log overflow (> 1260 objects in one bucket)", kd, totals)
+    total_programs += len(logs)
+    distinct += len(logs)
     if not ctx.quick:
         bp = ctx.path("prog_big.ndjson")
         bigs = big_programs()
@@ -249,7 +290,7 @@ def run(ctx):
         judge_trace(ctx, trace, "64 MiB remap threshold", kd, totals)
         total_programs += len(bigs)
         distinct += len(bigs)
-    never = [k for k in ("write", "read", "remove", "flush", "flushb", "reopen", "compact") if not ctx.cov.get("ops_executed", {}).get(k)]
+    never = [k for k in ("write", "read", "remove", "flush", "flushb", "reopen", "compact", "fill", "churn") if not ctx.cov.get("ops_executed", {}).get(k)]
     ctx.cov["actions_never_taken"] = never
     if totals["exact_reads"] == 0 or totals["ok_writes"] == 0 or never:
         raise lib.ToolError(f"vacuous run: {totals}, operations never executed: {never}")
